@@ -91,7 +91,9 @@ WeakKeys == {Key("rsa1024_edlabel", "rsa", 1024, 65537, TRUE), Key("rsa512", "rs
 MoreGoodKeys == {Key("rsa4096", "rsa", 4096, 65537, TRUE), Key("p521", "ecdsa", 521, 0, TRUE),
                  Key("rsa2048bige", "rsa", 2048, MaxI, TRUE)}
 BadEncodings == {Key(id, "none", 0, 0, FALSE) : id \in {"empty", "truncated", "retagged", "wrongarmor", "garbagepem", "certblob",
-                                                       "huge", "sshoptions", "sshcertaskey", "binary", "nullbytes"}}
+                                                       "huge", "sshoptions", "sshcertaskey", "binary", "nullbytes",
+                                                       \* present but nothing in it: blanks only / padding characters only
+                                                       "blank", "padonly"}}
 AllKeys == GoodKeys \cup WeakKeys \cup MoreGoodKeys \cup BadEncodings
 
 Dur(t, g, p, s) == [text |-> t, given |-> g, parses |-> p, secs |-> s]
